@@ -4,7 +4,7 @@
    signals with a value table, the kind only; the full statement is
    Acme.C10.Proofs.import_signal_faithful_full_statement. *)
 From Coq Require Import String ZArith List.
-From Acme.C10 Require Import DbcDoc BusModel Import Bits BitsProofs Proofs ProofsEnum ProofsLayout ProofsFaithful ProofsMux ProofsExtMux.
+From Acme.C10 Require Import DbcDoc BusModel Import Bits BitsProofs Proofs ProofsEnum ProofsLayout ProofsFaithful ProofsMux ProofsExtMux ProofsDecode.
 Import ListNotations.
 Open Scope Z_scope.
 
@@ -14,8 +14,9 @@ Theorem start_bit_inverse :
 Proof. exact Proofs.start_bit_inverse. Qed.
 Print Assumptions start_bit_inverse.
 
-(* the library's raw value of a signal at the imported position = the raw value an independent
-   interpreter of the DBC Intel/Motorola numbering reads at the file's start bit *)
+(* bit-level kernel of the decode clause (no `import` in it; the statement over the imported signal is
+   import_decode_dbc_imported below): the library's raw value of a signal at the position the importer
+   computes = the raw value an independent interpreter of the DBC Intel/Motorola numbering reads *)
 Theorem import_decode_dbc : forall ds data,
   0 <= ds_start ds -> 1 <= ds_size ds -> get_start_bit ds + ds_size ds <= 64 ->
   d08_excluded (ds_order ds) (get_start_bit ds) (ds_size ds) = false ->
@@ -114,3 +115,17 @@ Theorem import_ext_mux_faithful : forall d b, import d = Ok b ->
     Forall2 (fun dm m => ext_mux_faithful (doc_env d se) dm (m_signals m)) (d_messages d) (b_messages b).
 Proof. exact ProofsExtMux.import_ext_mux_faithful. Qed.
 Print Assumptions import_ext_mux_faithful.
+
+(* the decode clause over the IMPORTED signal (messages without multiplexor switch): position, size in
+   the final enum table and byte order of the imported message give the DBC rule's raw value *)
+Theorem import_decode_dbc_imported : forall d b, import d = Ok b ->
+  Forall2 (fun dm m => no_muxor dm ->
+    Forall2 (fun ds s => forall data,
+      0 <= ds_start ds -> 1 <= ds_size ds -> get_start_bit ds + ds_size ds <= 64 ->
+      d08_excluded (ds_order ds) (get_start_bit ds) (ds_size ds) = false ->
+      go_raw (m_order m) (s_rel s) (sig_size (b_enums b) s) data
+      = dbc_raw (ds_order ds) (ds_start ds) (ds_size ds) data)
+      (sorted_signals dm) (m_signals m))
+    (d_messages d) (b_messages b).
+Proof. exact ProofsDecode.import_decode_dbc_imported. Qed.
+Print Assumptions import_decode_dbc_imported.
